@@ -52,7 +52,7 @@ def _ext(prog: Program, mod: Any, call: ast.AST) -> str:
     return "bisect.bisect_right" if name == "bisect.bisect" else name  # stdlib fact: bisect is bisect_right
 
 
-def _timestamp_key(prog: Program, mod: Any, key: ast.AST | None) -> bool:
+def _timestamp_key(prog: Program, mod: Any, key: ast.AST | None, scope: ast.AST | None = None) -> bool:
     """`key` maps a sample to its timestamp: a lambda, a module-level function with that single
     return, or operator.attrgetter("timestamp") (inline or bound to a module-level name)."""
     def is_getter(e: ast.AST) -> bool:
@@ -63,12 +63,25 @@ def _timestamp_key(prog: Program, mod: Any, key: ast.AST | None) -> bool:
         return len(key.args.args) == 1 and u(key.body) == f"{key.args.args[0].arg}.timestamp"
     if key is not None and is_getter(key):
         return True
+    def def_ok(node: Any) -> bool:
+        body = [s for s in node.body if not (isinstance(s, ast.Expr) and isinstance(s.value, ast.Constant))]
+        params = [a.arg for a in node.args.posonlyargs + node.args.args]
+        return len(body) == 1 and isinstance(body[0], ast.Return) and len(params) == 1 \
+            and not node.decorator_list and u(body[0].value) == f"{params[0]}.timestamp"
+
     if isinstance(key, ast.Name):
+        nested = [n for n in ast.walk(scope) if isinstance(n, ast.FunctionDef) and n.name == key.id] if scope is not None else []
+        if nested:
+            return len(nested) == 1 and def_ok(nested[0])
+        local = [n for n in ast.walk(scope) if isinstance(n, (ast.Assign, ast.AnnAssign)) and n.value is not None and any(
+            isinstance(t, ast.Name) and t.id == key.id for t in (n.targets if isinstance(n, ast.Assign) else [n.target]))] \
+            if scope is not None else []
+        if local:
+            return len(local) == 1 and (is_getter(local[0].value) or isinstance(local[0].value, ast.Lambda)
+                                        and _timestamp_key(prog, mod, local[0].value))
         f = mod.functions.get(key.id)
         if f is not None:
-            body = [s for s in f.node.body if not (isinstance(s, ast.Expr) and isinstance(s.value, ast.Constant))]
-            return len(body) == 1 and isinstance(body[0], ast.Return) and len(f.params) == 1 \
-                and u(body[0].value) == f"{f.params[0]}.timestamp"
+            return def_ok(f.node)
         binds = [s for s in mod.tree.body if isinstance(s, (ast.Assign, ast.AnnAssign)) and s.value is not None and any(
             isinstance(t, ast.Name) and t.id == key.id for t in (s.targets if isinstance(s, ast.Assign) else [s.target]))]
         return len(binds) == 1 and (is_getter(binds[0].value) or _timestamp_key(prog, mod, binds[0].value)
@@ -99,7 +112,8 @@ def check_edge(run: Run, prog: Program) -> None:  # noqa: C901
     run.analysed(fn.qual)
     mod = fn.module
     T = fn.params[1]
-    paths = _paths(prog, fn)
+    norm_node = inline_helpers(prog, fn)
+    paths = sym_paths(norm_node)
     if not paths:
         raise AnalysisError(f"{fn.qual}: no path found")
     te = TermEval()
@@ -141,7 +155,7 @@ def check_edge(run: Run, prog: Program) -> None:  # noqa: C901
                 assert isinstance(arg, ast.Call)
                 a = positional(arg, ["a", "x", "lo", "hi"])
                 key = a.get("key")
-                key_ok = _timestamp_key(prog, mod, key)
+                key_ok = _timestamp_key(prog, mod, key, scope=norm_node)
                 ok = key_ok and u(a.get("a")) == BUF and "lo" not in a and "hi" not in a and "x" in a
                 needle = a.get("x")
             what = ("samples stamped exactly T - age would be included" if edge == "lower"
